@@ -10,6 +10,7 @@ from .common import Ctx, enc, enc_list
 ID = 'C19'
 LEVEL = 'proof'
 LEAN_TARGETS = ['MesonModel.Props.C19']
+AREAS = ['ver']
 PINS = [
     'mesonbuild.utils.universal:Version',
     'mesonbuild.utils.universal:_version_extract_cmpop',
@@ -208,7 +209,7 @@ def run(ctx: Ctx) -> None:
 
     # tokens
     for s in pool:
-        add('tok', s, f'ver tok {enc(s)}', show_v(U.Version(s)))
+        add('tok', s, f'tok {enc(s)}', show_v(U.Version(s)))
     # exhaustive pairs over the small set (+ random pairs from pool)
     pairs = list(itertools.product(small, small)) if True else []
     if not ctx.deep:
@@ -218,7 +219,7 @@ def run(ctx: Ctx) -> None:
     for a, b in pairs:
         x, y = U.Version(a), U.Version(b)
         ans = ''.join(str(int(v)) for v in (x < y, x > y, x <= y, x >= y, x == y, x != y, hash(x) == hash(y)))
-        add('cmp', (a, b), f'ver cmp {enc(a)}|{enc(b)}', ans)
+        add('cmp', (a, b), f'cmp {enc(a)}|{enc(b)}', ans)
         msg = oracle_pair(U, a, b)
         if msg:
             ctx.violation(f'pair:{a!r}:{b!r}', msg, {'a': a, 'b': b})
@@ -247,20 +248,20 @@ def run(ctx: Ctx) -> None:
         op, ws = rng.choice(OPS), rng.choice(WS)
         if (ws + b).strip()[:1] in ('<', '>', '=', '!') or (ws + b)[:1] in ('<', '>', '=', '!'):
             continue  # the oracle needs an unambiguous operator spelling; raw texts are covered below
-        add('vc', (a, op + ws + b), f'ver vc {enc(a)}|{enc(op + ws + b)}', str(int(U.version_compare(a, op + ws + b))))
+        add('vc', (a, op + ws + b), f'vc {enc(a)}|{enc(op + ws + b)}', str(int(U.version_compare(a, op + ws + b))))
         msg = oracle_vc(U, a, op, ws, b)
         if msg:
             ctx.violation(f'vc:{a!r}:{op + ws + b!r}', msg, {'a': a, 'cond': op + ws + b})
     # raw second arguments (any text), correspondence only
     for _ in range(ctx.scale(10000, 100000)):
         a, c = rng.choice(pool), rng.choice(['', '>', '<', '=', '!', '>=', '=>', '==', '!=', '<=']) + rand_junk(rng, 5)
-        add('vc', (a, c), f'ver vc {enc(a)}|{enc(c)}', str(int(U.version_compare(a, c))))
+        add('vc', (a, c), f'vc {enc(a)}|{enc(c)}', str(int(U.version_compare(a, c))))
     # constraint lists
     for _ in range(ctx.scale(8000, 80000)):
         a = rng.choice(pool)
         conds = [rand_check(rng, small) for _ in range(rng.randint(0, 5))]
         ok, nf, f = U.version_compare_many(a, conds)
-        add('many', (a, conds), f'ver many {enc(a)}|{enc_list(conds)}',
+        add('many', (a, conds), f'many {enc(a)}|{enc_list(conds)}',
             f'{int(ok)};{enc_list(nf)};{enc_list(f)}')
         msg = oracle_many(U, a, conds)
         if msg:
@@ -271,13 +272,13 @@ def run(ctx: Ctx) -> None:
     for _ in range(ctx.scale(15000, 150000)):
         sa, sb = rand_range_spec(rng, small), rand_range_spec(rng, small)
         ra, rb = mk_range(U, sa), mk_range(U, sb)
-        add('mkrange', sa, f'ver mkrange {range_arg(sa)}', show_range(ra))
-        add('intersect', (sa, sb), f'ver intersect {range_arg(sa)}|{range_arg(sb)}', show_range(ra.intersect(rb)))
-        add('always', (sa, sb), f'ver always {range_arg(sa)}|{range_arg(sb)}', str(ra.always(rb)))
+        add('mkrange', sa, f'mkrange {range_arg(sa)}', show_range(ra))
+        add('intersect', (sa, sb), f'intersect {range_arg(sa)}|{range_arg(sb)}', show_range(ra.intersect(rb)))
+        add('always', (sa, sb), f'always {range_arg(sa)}|{range_arg(sb)}', str(ra.always(rb)))
         p = rng.choice(probes_s)
-        add('contains', (sa, p), f'ver contains {range_arg(sa)}|{enc(p)}', str(int(U.Version(p) in ra)))
+        add('contains', (sa, p), f'contains {range_arg(sa)}|{enc(p)}', str(int(U.Version(p) in ra)))
         m = rng.choice(small)
-        add('cwmr', (sa, m), f'ver cwmr {range_arg(sa)}|{enc(m)}',
+        add('cwmr', (sa, m), f'cwmr {range_arg(sa)}|{enc(m)}',
             str(int(U.version_compare_condition_with_min(ra, m))))
         msg = oracle_ranges(U, ra, rb, probes)
         if msg:
@@ -286,19 +287,19 @@ def run(ctx: Ctx) -> None:
         checks = [rand_check(rng, small) for _ in range(rng.randint(0, 5))]
         st = rand_range_spec(rng, small) if rng.random() < 0.5 else (None, False, None, False, False)
         rs = mk_range(U, st)
-        add('c2r', (checks, st), f'ver c2r {enc_list(checks)}|{range_arg(st)}',
+        add('c2r', (checks, st), f'c2r {enc_list(checks)}|{range_arg(st)}',
             show_range(U.version_check_to_range(list(checks), rs)))
         msg = oracle_c2r(U, checks, rs, probes_s)
         if msg:
             ctx.violation(f'c2r:{checks!r}:{st!r}', msg, {'checks': checks, 'start': st})
         c = rand_check(rng, small)
         m = rng.choice(small)
-        add('cwm', (c, m), f'ver cwm {enc(c)}|{enc(m)}', str(int(U.version_compare_condition_with_min(c, m))))
+        add('cwm', (c, m), f'cwm {enc(c)}|{enc(m)}', str(int(U.version_compare_condition_with_min(c, m))))
 
     # ---- correspondence: model driver on the same inputs
     ctx.count(len(cases))
     if getattr(ctx, 'model_available', True):
-        answers = ctx.driver([c[2] for c in cases])
+        answers = ctx.driver('ver', [c[2] for c in cases])
         common_ans: T.Dict[str, T.Dict[str, int]] = {}
         for (kind, inp, _line, impl_ans), model_ans in zip(cases, answers):
             ctx.tag('kind:' + kind)
@@ -408,4 +409,4 @@ def replay(ctx: Ctx, rep: dict) -> None:
     print('replay', rep.get('what'), case)
     if 'a' in case and 'b' in case and isinstance(case['a'], str):
         print('impl oracle:', oracle_pair(U, case['a'], case['b']))
-        print('model:', ctx.driver([f'ver cmp {enc(case["a"])}|{enc(case["b"])}']))
+        print('model:', ctx.driver('ver', [f'cmp {enc(case["a"])}|{enc(case["b"])}']))
